@@ -113,7 +113,9 @@ Spec == Init /\ [][Next]_vars
 RECURSIVE SchedTick(_)
 SchedTick(k) == IF k = 1 THEN 1 ELSE SchedTick(k - 1) + 2 ^ (k - 2) + 1
 
-Sched(n) == { t \in 1..n : \E k \in 1..n : SchedTick(k) = t }
+\* only the first dozen schedule points can fall into the tick counts the configurations reach
+\* (SchedTick(12) = 2059); bounding k keeps 2^(k-2) inside TLC's integers for long traces
+Sched(n) == { t \in 1..n : \E k \in 1..(IF n < 12 THEN n ELSE 12) : SchedTick(k) = t }
 
 Quiescent == \A g \in Goroutines : pc[g] = "done"
 
